@@ -34,6 +34,123 @@ def canonical(c, n):
     return z3.Or(z3.And(n >= 0, n < NPC), z3.And(c == I16MAX, n == NPC))
 
 
+# ---------------------------------------------------------------------------------------------------------
+# Contracts of Duration arithmetic as summaries (compositional obligations). Each contract is exactly the
+# post-condition that the C01 / C02 obligations decide on the real code at full width:
+#   result canonical  and  count(result) == clamp(exact integer result).
+# An obligation that uses them must list the corresponding contract obligations (see CONTRACT_OBS).
+def _fresh_duration(eng, st, total):
+    """a canonical Duration value whose count is clamp(total): fresh (c, n) tied by c*NPC + n == clamp(total)"""
+    t = zsimp(clampz(Z(total)))
+    if is_conc(t):
+        if t == DMAX:
+            return dur_val(I16MAX, NPC)
+        return dur_val(t // NPC, t % NPC)
+    c = z3.Int(f"sc!{next(eng.fresh)}")
+    n = z3.Int(f"sn!{next(eng.fresh)}")
+    eng.var_range[str(c)] = (I16MIN, I16MAX)
+    eng.var_range[str(n)] = (0, NPC)
+    cons = z3.And(c >= I16MIN, c <= I16MAX, canonical(c, n), c * NPC + n == t)
+    st.pc.append(cons)
+    eng.solver.add(cons)
+    return dur_val(c, n)
+
+
+def _is_dur(v):
+    return isinstance(v, Agg) and v.ty and v.ty.endswith("Duration") and len(v.fields) == 2
+
+
+def _unit_ns_of(v):
+    from props.c02 import unit_ns, UNIT_NS
+    d = v.discr
+    return UNIT_NS[d] if is_conc(d) else unit_ns(Z(d))
+
+
+def _require_canon(eng, st, v, what):
+    c, n = v.fields[0].e, v.fields[1].e
+    if is_conc(c) and is_conc(n):
+        ok = (0 <= n < NPC) or (c == I16MAX and n == NPC)
+    else:
+        ok = eng.check(z3.Not(canonical(Z(c), Z(n)))) == z3.unsat
+    if not ok:
+        raise TranslationError(f"contract summary {what}: operand not provably canonical")
+
+
+def _operand_total(eng, st, v, what):
+    """count of a Duration operand, or ns of a Unit operand; None when the operand is neither"""
+    v = _deref(eng, st, v)
+    if _is_dur(v):
+        _require_canon(eng, st, v, what)
+        return dur_total(v)
+    if isinstance(v, EnumV) and v.ty == "Unit":
+        return _unit_ns_of(v)
+    return None
+
+
+def _sum_binary(sign):
+    def summ(eng, st, args):
+        a = _deref(eng, st, args[0])
+        if not _is_dur(a):
+            return None
+        tb = _operand_total(eng, st, args[1], "add/sub")
+        if tb is None:
+            return None
+        _require_canon(eng, st, a, "add/sub")
+        return [(True, _fresh_duration(eng, st, dur_total(a) + sign * tb))]
+    return summ
+
+
+def _sum_assign(sign):
+    def summ(eng, st, args):
+        ref = args[0]
+        if not isinstance(ref, Ref):
+            return None
+        a = _deref(eng, st, ref)
+        if not _is_dur(a):
+            return None
+        tb = _operand_total(eng, st, args[1], "add_assign/sub_assign")
+        if tb is None:
+            return None
+        _require_canon(eng, st, a, "add_assign/sub_assign")
+        eng.store_loc(st, (ref.uid, ref.local, ref.path), _fresh_duration(eng, st, dur_total(a) + sign * tb))
+        return [(True, UNIT)]
+    return summ
+
+
+def _sum_unit_mul(eng, st, args):
+    a, b = _deref(eng, st, args[0]), _deref(eng, st, args[1])
+    if isinstance(a, EnumV) and a.ty == "Unit" and isinstance(b, IntV) and b.ty == "i64":
+        u, q = a, b
+    elif isinstance(b, EnumV) and b.ty == "Unit" and isinstance(a, IntV) and a.ty == "i64":
+        u, q = b, a
+    else:
+        return None
+    ns = _unit_ns_of(u)
+    if not is_conc(ns) and not is_conc(q.e):
+        return None   # symbolic unit x symbolic count: keep the real body
+    return [(True, _fresh_duration(eng, st, Z(ns) * Z(q.e)))]
+
+
+def dur_arith_summaries():
+    return {"::add": _sum_binary(+1), "::sub": _sum_binary(-1), "::add_assign": _sum_assign(+1), "::sub_assign": _sum_assign(-1),
+            "::mul": _sum_unit_mul}
+
+
+def contract_obligations(tier="quick"):
+    """the obligations that decide, on the real code and at full width, the contracts used by dur_arith_summaries()"""
+    import importlib
+    names = {"c01": ["c01_add", "c01_sub", "c01_add_assign", "c01_sub_assign", "c01_add_unit", "c01_sub_unit", "c01_add_assign_unit", "c01_sub_assign_unit"],
+             "c02": ["c02_unit_mul_i64", "c02_i64_mul_unit"]}
+    out = []
+    for modn, ns in names.items():
+        m = importlib.import_module("props." + modn)
+        for o in m.obligations(tier, 0):
+            if getattr(o, "name", None) in ns:
+                o.desc = "[contract used by the compositional obligations of this property] " + o.desc
+                out.append(o)
+    return out
+
+
 class In:
     """symbolic input descriptor"""
     def __init__(self, name, kind):
@@ -130,7 +247,12 @@ class MirOb:
     def __init__(self, name, fn, inputs, post, desc, eval_key, pre=None, eval_args=None, functions=None,
                  bounds="full width of the input types; loop-free", outside=None, tier="quick", modes=("dev", "release"),
                  panic_ok=None, min_paths=1, probes=None, loop_bound=8, out_of_ref=None, uf_mul=False, timeout_ms=30000,
-                 eval_out=None, ret_shape="Duration", native_refs=None, pin_vars=None, summaries=None, summaries_concrete=None):
+                 eval_out=None, ret_shape="Duration", native_refs=None, pin_vars=None, summaries=None, summaries_concrete=None,
+                 loop_contracts=None, on_loop_failure=None, nprobe=None, feas_timeout_ms=None):
+        self.feas_timeout_ms = feas_timeout_ms
+        self.loop_contracts = loop_contracts or []
+        self.on_loop_failure = on_loop_failure   # callable(list of solver models) -> follow-up obligations (bounded unrolling)
+        self.nprobe = nprobe
         self.pin_vars = pin_vars
         self.summaries = summaries or {}
         self.summaries_concrete = self.summaries if summaries_concrete is None else summaries_concrete
@@ -179,10 +301,23 @@ def install_exclusions(eng):
             eng.exclusions.append((suffix, pred, f["id"]))
 
 
+def _hard_check(pc, goal, timeout_s=120):
+    """decide pc /\ goal with the external portfolio; model over all uninterpreted integer constants"""
+    from z3 import z3util
+    vs = set()
+    for f in list(pc) + [goal]:
+        for v in z3util.get_vars(Z(f)):
+            if z3.is_int(v):
+                vs.add(str(v))
+    verdict, model, _who = portfolio_check_text(smt2_of(pc, goal), sorted(vs), timeout_s)
+    return {"sat": z3.sat, "unsat": z3.unsat}.get(verdict, z3.unknown), model
+
+
 def get_engine(mode, mirtext):
     if mode not in ENGINES:
         ENGINES[mode] = Engine(mirtext, os.path.join(sync.WORK, "mcopy", "src"), mode=mode)
         install_exclusions(ENGINES[mode])
+        ENGINES[mode].hard_check = _hard_check
     return ENGINES[mode]
 
 
@@ -281,6 +416,7 @@ def run_sym(eng, ob, fn_item, subst_vals=None):
     real_args = [Ref(holder_uid, a[1]) if isinstance(a, tuple) else a for a in args]
     eng.loop_bound = ob.loop_bound
     eng.summaries = dict(ob.summaries if subst_vals is None else ob.summaries_concrete)
+    eng.loop_contracts = list(ob.loop_contracts) if subst_vals is None else []
     eng.use_uf_mul = ob.uf_mul and subst_vals is None
     env["__mul"] = (lambda a, b: eng.mul(Z(a), Z(b))) if eng.use_uf_mul else (lambda a, b: Z(a) * Z(b))
     env["__eng"] = eng if subst_vals is None else None
@@ -652,8 +788,13 @@ def run_obligations(obs, tier, seed, need_replay, build_info):
     rdst = need_replay()
     nats = {"dev": NativeEval(rdst, "debug"), "release": NativeEval(rdst, "release")}
     results = []
-    nprobe = 150 if tier == "quick" else 1500
-    for ob in obs:
+    nprobe0 = 150 if tier == "quick" else 1500
+    obs = list(obs)
+    oi = 0
+    while oi < len(obs):
+        ob = obs[oi]
+        oi += 1
+        nprobe = ob.nprobe or nprobe0
         rec = {"oid": ob.oid, "engine": "mirsym", "desc": ob.desc, "functions": list(ob.functions), "bounds": ob.bounds,
                "outside": ob.outside, "queries": 0, "feasible_paths": 0, "solver_s": 0.0, "verdict": "holds",
                "validation": {}, "counterexamples": []}
@@ -661,7 +802,7 @@ def run_obligations(obs, tier, seed, need_replay, build_info):
         try:
             for mode in ob.modes:
                 eng = get_engine(mode, mirtext)
-                eng.solver.set("timeout", min(ob.timeout_ms, 6000))
+                eng.solver.set("timeout", ob.feas_timeout_ms or min(ob.timeout_ms, 6000))
                 q0, s0 = eng.queries, eng.solver_s
                 fn_item = find_fn(eng, ob.fn)
                 rec["functions"] = sorted(set(rec["functions"]) | {fn_item.name})
@@ -684,6 +825,14 @@ def run_obligations(obs, tier, seed, need_replay, build_info):
                     if e.kind == "bound":
                         rec["verdict"] = "bound"
                         rec["detail"] = e.msg
+                        continue
+                    if e.kind == "loopstep":
+                        rec["inductive_steps_proved"] = rec.get("inductive_steps_proved", 0) + 1
+                        continue
+                    if e.kind == "loopinv":
+                        rec["verdict"] = "loop_invariant"
+                        rec["detail"] = (e.msg or "") + " -- the inductive argument does not go through on this tree; falling back to bounded unrolling around the solver's witness"
+                        rec.setdefault("_loop_models", []).append(getattr(e, "model", None) or {})
                         continue
                     if e.kind == "excluded":
                         rec.setdefault("excluded_known_finding_paths", {})
@@ -785,6 +934,11 @@ def run_obligations(obs, tier, seed, need_replay, build_info):
                 rec["queries"] += eng.queries - q0
                 rec["solver_s"] += eng.solver_s - s0
                 rec.setdefault("callees", called[:60])
+                if rec.get("_loop_models") is not None and ob.on_loop_failure and not rec.get("_followed"):
+                    rec["_followed"] = True
+                    extra = ob.on_loop_failure(rec["_loop_models"])
+                    rec["follow_up"] = [o.name for o in extra]
+                    obs.extend(extra)
                 if nret < ob.min_paths and rec["verdict"] == "holds":
                     rec["verdict"] = "vacuous"
                     rec["detail"] = f"only {nret} feasible returning paths (expected >= {ob.min_paths})"
@@ -801,6 +955,7 @@ def run_obligations(obs, tier, seed, need_replay, build_info):
         rec["solver_s"] = round(rec["solver_s"], 3)
         rec["wall_s"] = round(time.time() - t1, 2)
         rec["counterexamples"] = rec["counterexamples"][:4]
+        rec.pop("_loop_models", None); rec.pop("_followed", None)
         results.append(rec)
     for n in nats.values():
         n.close()
@@ -854,6 +1009,11 @@ def parse_shape(shape, toks):
         return EnumV("Option<Ordering>", 1, (EnumV("Ordering", int(toks[1]), (), None),), "Some") if toks[0] == "Some" else EnumV("Option", 0, (), "None")
     if shape == "Result<i64>":
         return EnumV("Result", 0, (I("i64", toks[1]),), "Ok") if toks[0] == "Ok" else EnumV("Result", 1, (Opaque("e"),), "Err")
+    if shape == "greg7":
+        tys = ["i32", "u8", "u8", "u8", "u8", "u8", "u32"]
+        return Agg(None, tuple(I(ty, x) for ty, x in zip(tys, toks)))
+    if shape == "i32":
+        return I("i32", toks[0])
     if shape == "tuple8":
         tys = ["i8"] + ["u64"] * 7
         return Agg(None, tuple(I(ty, x) for ty, x in zip(tys, toks)))
